@@ -155,3 +155,36 @@ def C07_comment_inside_interpolate(case, params):
     if not hit:
         return False
     return rt.c07_check(dict(c, text="\n".join(out)), case.get("prog", [])) is None
+
+
+def C07_joint_imp_card_comment(case, params):
+    """F-C07-joint-imp-card-comment: a data-block IMP card for several particles ('imp:n,p ...') that carries a comment
+    ('$ ...' on one of its lines or a 'c' line inside it), and an importance edit that makes the particles differ, so
+    that the card is split.  Ablation: the same card without its comments."""
+    import rt, spec
+    if case.get("kind") != "comments-changed":
+        return False
+    c = case["case"]
+    if not any(e.get("kind") == "importance" for e in case.get("prog", [])):
+        return False
+    lines = c["text"].split("\n")
+    out = []
+    in_card = False
+    hit = False
+    for l in lines:
+        x = l.expandtabs(8)
+        if re.match(r"^\s{0,4}\*?imp:[^\s,]+,", x, re.I):
+            in_card = True
+        elif x[:5].strip() and not spec.is_comment_line(x):
+            in_card = False
+        if in_card and spec.is_comment_line(x):
+            hit = True
+            continue
+        if in_card and "$" in x:
+            hit = True
+            out.append(_comment_free(x))
+            continue
+        out.append(l)
+    if not hit:
+        return False
+    return rt.c07_check(dict(c, text="\n".join(out)), case.get("prog", [])) is None
